@@ -1,5 +1,5 @@
 (* placeholder *)
 From Coq Require Import List Bool Arith String.
-From Cylc Require Import Base.Util Gen.FamTables Model.GraphBase Model.GraphParse.
+From Cylc Require Import Base.Util Gen.FamTables Model.GraphBase Model.GraphParse Model.GraphAst.
 Import ListNotations.
 Theorem c14_placeholder : True. Proof. exact I. Qed.
